@@ -304,7 +304,7 @@ def eval_case(ctx, case):
     args = [tools, "tag"]
     if case["dryrun"] != "absent":
         args.append("--dry-run=%s" % case["dryrun"])
-    r = core.run(args, cwd=repo, env=core.base_env(GITENV), timeout=120)
+    r = core.run(args, cwd=repo, env=core.base_env(GITENV), timeout=120, cpu_limit=60)
     if r.timed_out:
         return Verdict.inconclusive("watchdog")
     m = model(case)
